@@ -16,6 +16,11 @@ from ..frontend import AnalysisBroken
 FLIP = {"<": ">", ">": "<", "=": "="}
 
 
+class Unordered(Exception):
+    """The comparator decides by arithmetic on the keys (difference, cast), which is not a function of the
+    per-field orderings for all values: a difference of two int64 keys can overflow or be truncated."""
+
+
 class _Return(Exception):
     def __init__(self, v):
         self.v = v
@@ -79,6 +84,16 @@ class Comparator:
             for d in kids(n):
                 if d["kind"] == "VarDecl":
                     ini = [c for c in kids(d) if c["kind"] not in ("FullComment",)]
+                    if ini:
+                        i0 = strip(ini[0], casts=True)
+                        if i0["kind"] == "BinaryOperator" and i0.get("opcode") in ("-", "+", "*"):
+                            if not hasattr(self, "arith_locals"):
+                                self.arith_locals = {}
+                            self.arith_locals[d["id"]] = ("%s decides by '%s %s = %s': the difference of two 64-bit keys "
+                                                          "can overflow and is truncated when stored in a narrower type, so "
+                                                          "widely separated keys compare wrongly"
+                                                          % (self.func.name, d.get("type"), d.get("name"), render(i0)))
+                            continue
                     self.locals[d["id"]] = self._expr(ini[0]) if ini else None
         elif k == "BinaryOperator" and n.get("opcode") == "=":
             l = strip(kids(n)[0])
@@ -103,6 +118,11 @@ class Comparator:
                     return ("a", n["name"])
                 if b["ref"]["id"] == self.pb:
                     return ("b", n["name"])
+        if n["kind"] == "BinaryOperator" and n.get("opcode") in ("-", "+", "*", "/", "%"):
+            raise Unordered("%s compares the arithmetic expression %s; for 64-bit keys this can overflow or be truncated"
+                            % (self.func.name, render(n)))
+        if n["kind"] == "DeclRefExpr" and n["ref"]["id"] in getattr(self, "arith_locals", {}):
+            raise Unordered(self.arith_locals[n["ref"]["id"]])
         raise AnalysisBroken("comparator %s: unsupported operand %s" % (self.func.key, render(n)))
 
     def _expr(self, n):
@@ -118,6 +138,8 @@ class Comparator:
                 if v is None:
                     raise AnalysisBroken("comparator %s reads an uninitialised local" % self.func.key)
                 return v
+            if n["ref"]["id"] in getattr(self, "arith_locals", {}):
+                raise Unordered(self.arith_locals[n["ref"]["id"]])
             raise AnalysisBroken("comparator %s: unsupported reference %s" % (self.func.key, render(n)))
         if k == "UnaryOperator" and n.get("opcode") == "!":
             return not self._expr(kids(n)[0])
@@ -143,6 +165,9 @@ class Comparator:
                         rel = FLIP[rel]
                 return {"<": rel == "<", ">": rel == ">", "<=": rel in "<=", ">=": rel in ">=",
                         "==": rel == "=", "!=": rel != "="}[op]
+        if k == "BinaryOperator" and n.get("opcode") in ("-", "+", "*", "/", "%", ">>", "<<"):
+            raise Unordered("%s decides by the arithmetic expression %s; for 64-bit keys this can overflow or be "
+                            "truncated, so the result is not determined by the ordering of the keys" % (self.func.name, render(n)))
         raise AnalysisBroken("comparator %s: unsupported expression %s" % (self.func.key, render(n)))
 
 
